@@ -51,6 +51,42 @@ def observe(tc, w, hist, rng):
     return run_history(tc, w, frames)
 
 
+def long_walk(rng, w, n_frames, layout):
+    """A long scenario-class history: three animals walk steadily (3 px per frame, hundreds of px in total - far more than
+    their separation), the third arrives late while the others are visible, absences are shorter than the window.
+    layout "lanes": parallel lines 120 px apart; "file": one behind the other on the same line, 151 px apart - each walks over
+    ground another one covered many frames (more than the window) ago.  Returns (hist, frames)."""
+    from harness.tracker_util import POSE
+    import numpy as np
+
+    arrive = rng.randint(n_frames // 2, (2 * n_frames) // 3)     # the early animals have walked hundreds of px by then
+    absent = {}          # frame -> animal missing (never at an arrival, never two at once, shorter than the window)
+    t = arrive + 3
+    while t < n_frames - w:
+        a = rng.choice([1, 2, 3])
+        for k in range(rng.randint(1, max(1, w - 1))):
+            absent[t + k] = a
+        t += w + rng.randint(3, 9)
+    hist = [sorted(a for a in (1, 2, 3) if (a < 3 or f >= arrive) and absent.get(f) != a) for f in range(n_frames)]
+    return hist, walk_frames(hist, layout, rng)
+
+
+def walk_frames(hist, layout, rng):
+    """the detections of a long walk: positions are a function of (frame, animal, layout) only"""
+    from harness.tracker_util import POSE
+    import numpy as np
+
+    frames = []
+    for f, present in enumerate(hist):
+        dets = []
+        for a in present:
+            base = np.array([20.0 + 6.0 * f, 60.0 + 120.0 * (a - 1)]) if layout == "lanes" else np.array([20.0 + 3.0 * f + 151.0 * (3 - a), 100.0])
+            dets.append(dict(a=a, hi=True, pts=POSE + base))
+        rng.shuffle(dets)
+        frames.append(dets)
+    return frames
+
+
 def run(tier, seed):
     from harness.graph import dump_graph
     from harness.tracker_util import FEATURES
@@ -81,6 +117,24 @@ def run(tier, seed):
                     tc["flow"] = True
                 fr = observe(tc, cfg["w"], hist, rng)
                 traces.append(dict(id=len(traces), mode="C10", cfg=dict(cfg), frames=fr, tc=tc, hist=hist))
+    # long walks (scenario class, 60-110 frames): what a track remembers beyond its window must not matter
+    from harness.tracker_util import run_history
+    n_long = 0
+    for store in ("fixed", "local"):
+        for match in ("hungarian", "greedy"):
+            for red in ("mean", "max"):
+                for k, (feat, score) in enumerate(FEATURES):
+                    for layout in ("lanes", "file"):
+                        # quick: both layouts for every (store, matcher, reduction), features rotated
+                        if tier == "quick" and (n_long + k + (layout == "file")) % 3:
+                            continue
+                        w = rng.choice([3, 5])
+                        hist, frames = long_walk(rng, w, rng.randint(100, 140), layout)
+                        tc = dict(store=store, match=match, red=red, feat=feat, score=score)
+                        cfg = dict(store=store, match=match, red=red, w=w)
+                        traces.append(dict(id=len(traces), mode="C10", cfg=cfg, frames=run_history(tc, w, frames), tc=tc, hist=hist, long=layout))
+                    n_long += 1
+    res.clause("long_walk_histories", n_long)
     j = judge("Trace_Tracker", [dict(id=t["id"], mode="C10", cfg=t["cfg"], frames=[dict(dets=f["dets"], ret=f["ret"], raised=f["raised"]) for f in t["frames"]]) for t in traces],
               cfg_text=TRACE_CFG, per_shard_min=100, timeout=1500)
     res.add_judge("Trace_Tracker (C10)", j, "histories from TLC's state graph of the scenario class")
@@ -91,7 +145,7 @@ def run(tier, seed):
         fr = int(clause.split("_at_frame_")[1]) if "_at_frame_" in clause else 0
         f = t["frames"][min(fr, len(t["frames"])) - 1]
         res.violation(dict(where="Tracker.track", store=t["tc"]["store"], kind=kind), clause,
-                      dict(tc=t["tc"], w=t["cfg"]["w"], hist=t["hist"], frames=t["frames"]),
+                      dict(tc=t["tc"], w=t["cfg"]["w"], hist=t["hist"], frames=t["frames"], long=t.get("long")),
                       "%s w=%d hist=%s frame %d: dets=%s ret=%s %s" % (t["tc"], t["cfg"]["w"], t["hist"], fr, f["dets"], f["ret"], f.get("err", "")))
     if j["rejected_n"] > len(j["rejected"]):
         res.coverage["rejections_not_listed"] = j["rejected_n"] - len(j["rejected"])
@@ -145,7 +199,11 @@ def replay(rp, seed):
         for cid, clause in j["rejected"]:
             res.violation(rp["key"], clause, c)
         return res
-    fr = observe(c["tc"], c["w"], c["hist"], rng)
+    if c.get("long"):
+        from harness.tracker_util import run_history
+        fr = run_history(c["tc"], c["w"], walk_frames(c["hist"], c["long"], rng))
+    else:
+        fr = observe(c["tc"], c["w"], c["hist"], rng)
     cfg = dict(store=c["tc"]["store"], match=c["tc"]["match"], red=c["tc"]["red"], w=c["w"])
     j = judge("Trace_Tracker", [dict(id=0, mode="C10", cfg=cfg, frames=[dict(dets=f["dets"], ret=f["ret"], raised=f["raised"]) for f in fr])], cfg_text=TRACE_CFG, shards=1)
     for cid, clause in j["rejected"]:
